@@ -162,6 +162,7 @@ type Interp struct {
 	signs       []*signApp
 	verifies    []*verifyApp
 	nverify     int
+	nufapp      int
 	seals       []*sealApp
 	opens       []*openApp
 	unwindOverride int
